@@ -256,6 +256,9 @@ func (e *Emitter) emitScriptStatement(scriptStmt *ast.ScriptStatement, textLabel
 			if !ok {
 				return "", errors.New("could not emit 'break' statement because its return point is unknown")
 			}
+			// Statements after the 'break' are unreachable from here, but they can still
+			// contain labels, so they must be kept as their own chunk.
+			remainingChunks, _ = curChunk.splitChunkForBranch(i, &chunkCounter, remainingChunks)
 			completeChunk := &chunk{
 				id:             curChunk.id,
 				returnID:       curChunk.returnID,
